@@ -61,8 +61,10 @@ func (e *env) record() {
 	}
 }
 
-func (e *env) bHeight() uint64 { return uint64(e.b.LatestCommittedHeader.GetHeight().GetRevisionHeight()) }
-func (e *env) bRev() uint64    { return clienttypes.ParseChainID(e.b.ChainID) }
+func (e *env) bHeight() uint64 {
+	return uint64(e.b.LatestCommittedHeader.GetHeight().GetRevisionHeight())
+}
+func (e *env) bRev() uint64 { return clienttypes.ParseChainID(e.b.ChainID) }
 
 // consTs returns the timestamp (ns) of the consensus state A's client holds for B height h
 func consTs(ep *ibctesting.Endpoint, rev, h uint64) (uint64, bool) {
@@ -167,8 +169,41 @@ func history(r *Rng, steps int, emit func(M), report func(Violation)) {
 			report(Violation{Property: "C04", What: what, Input: in})
 		}
 	}
+	tryTimeoutV1 := func(k *pktV1, H uint64) {
+		ts, okc := consTs(e.path.EndpointA, rev, H)
+		err := e.timeoutV1(k, H)
+		in := M{"f": "world.timeoutV1", "trev": U(k.p.TimeoutHeight.RevisionNumber), "th": U(k.p.TimeoutHeight.RevisionHeight), "tts": U(k.p.TimeoutTimestamp),
+			"rev": U(rev), "H": U(H), "consTs": U(ts), "cons": okc, "recvAt": U(k.recvAt)}
+		emit(lib_case(in, M{"accept": err == nil}))
+		if err == nil {
+			k.done = true
+			if k.recvAt != 0 || hasReceiptV1(e, k) {
+				viol("v1 packet both received on B and timed out on A", M{"seq": U(k.p.Sequence), "recvAt": U(k.recvAt), "proofHeight": U(H)})
+			}
+			// never early: B really produced block H with height/time at or past the timeout
+			hdrTime := ts
+			reached := (!k.p.TimeoutHeight.IsZero() && clienttypes.NewHeight(rev, H).GTE(k.p.TimeoutHeight)) || (k.p.TimeoutTimestamp != 0 && hdrTime >= k.p.TimeoutTimestamp)
+			if !reached || H > e.bHeight() {
+				viol("v1 timeout accepted before the destination reached the timeout", M{"seq": U(k.p.Sequence), "proofHeight": U(H), "consTs": U(ts)})
+			}
+		}
+	}
+	tryTimeoutV2 := func(k *pktV2, H uint64) {
+		ts, okc := consTs(e.pathV2.EndpointA, rev, H)
+		err := e.timeoutV2(k, H)
+		emit(lib_case(M{"f": "world.timeoutV2", "T": U(k.p.TimeoutTimestamp), "H": U(H), "consTs": U(ts), "cons": okc, "recvAt": U(k.recvAt)}, M{"accept": err == nil}))
+		if err == nil {
+			k.done = true
+			if k.recvAt != 0 || hasReceiptV2(e, k) {
+				viol("v2 packet both received on B and timed out on A", M{"seq": U(k.p.Sequence), "recvAt": U(k.recvAt), "proofHeight": U(H)})
+			}
+			if ts/1_000_000_000 < k.p.TimeoutTimestamp {
+				viol("v2 timeout accepted before the destination time reached the timeout", M{"seq": U(k.p.Sequence), "consTs": U(ts)})
+			}
+		}
+	}
 	for s := 0; s < steps; s++ {
-		switch r.Intn(13) {
+		switch r.Intn(15) {
 		case 10, 6: // receive attempt v1
 			if len(v1s) == 0 {
 				continue
@@ -207,6 +242,50 @@ func history(r *Rng, steps int, emit func(M), report func(Violation)) {
 					viol("v2 packet received on B after it was timed out on A", M{"seq": U(k.p.Sequence)})
 				}
 			}
+		case 13, 14: // directed: move B's clock right next to a pending packet's timeout, then A learns about it
+			var target int64 // nanoseconds
+			var dk1 *pktV1
+			var dk2 *pktV2
+			deltas := []int64{-1_000_000_000, -600_000_000, -500_000_000, -400_000_000, -1, 0, 1, 400_000_000}
+			if r.Bool() && len(v2s) > 0 {
+				k := v2s[len(v2s)-1-r.Intn(min(2, len(v2s)))]
+				if k.done {
+					continue
+				}
+				target = int64(k.p.TimeoutTimestamp)*1_000_000_000 + Pick(r, deltas)
+				dk2 = k
+			} else if len(v1s) > 0 {
+				k := v1s[len(v1s)-1-r.Intn(min(2, len(v1s)))]
+				if k.done || k.p.TimeoutTimestamp == 0 {
+					continue
+				}
+				target = int64(k.p.TimeoutTimestamp) + Pick(r, []int64{-1, 0, 1})
+				dk1 = k
+			} else {
+				continue
+			}
+			if target <= e.coord.CurrentTime.UnixNano() {
+				continue
+			}
+			// Endpoint.UpdateClient first commits one block on B — carrying the coordinator's current time —
+			// and then submits exactly that header: the new latest consensus state has timestamp `target`.
+			e.coord.SetTime(time.Unix(0, target))
+			if dk2 != nil {
+				if err := e.pathV2.EndpointA.UpdateClient(); err != nil {
+					panic(err)
+				}
+			} else {
+				if err := e.path.EndpointA.UpdateClient(); err != nil {
+					panic(err)
+				}
+			}
+			e.record()
+			if dk2 != nil && hasCommitV2(e, dk2) && r.Chance(0.8) {
+				tryTimeoutV2(dk2, e.consV2[len(e.consV2)-1])
+			}
+			if dk1 != nil && hasCommitV1(e, dk1) && r.Chance(0.8) {
+				tryTimeoutV1(dk1, e.consV1[len(e.consV1)-1])
+			}
 		case 0, 1: // send v1 with a timeout around B's near future
 			bh := e.bHeight()
 			bt := uint64(e.b.LatestCommittedHeader.GetTime().UnixNano())
@@ -232,6 +311,9 @@ func history(r *Rng, steps int, emit func(M), report func(Violation)) {
 		case 2: // send v2 with a timeout in seconds
 			bt := uint64(e.a.LatestCommittedHeader.GetTime().Unix())
 			T := bt + uint64(8+r.Intn(120))
+			if r.Chance(0.5) {
+				T = uint64(e.b.LatestCommittedHeader.GetTime().Unix()) + uint64(6+r.Intn(40))
+			}
 			pkt, err := e.pathV2.EndpointA.MsgSendPacket(T, mockv2.NewMockPayload(mockv2.ModuleNameA, mockv2.ModuleNameB))
 			if err != nil {
 				continue
@@ -241,7 +323,17 @@ func history(r *Rng, steps int, emit func(M), report func(Violation)) {
 			}
 			v2s = append(v2s, &pktV2{p: pkt, noRecv: r.Chance(0.5)})
 		case 3, 4: // time passes on B
-			e.advanceB(1+r.Intn(4), time.Duration(1+r.Intn(30))*time.Second)
+			// sub-second block times matter: v2 compares whole seconds of nanosecond consensus times
+			dt := time.Duration(1+r.Intn(30)) * time.Second
+			switch r.Intn(4) {
+			case 0:
+				dt += time.Duration(r.Intn(1_000_000_000))
+			case 1:
+				dt += time.Duration(500_000_000 + r.Intn(500_000_000))
+			case 2:
+				dt += 999_999_999
+			}
+			e.advanceB(1+r.Intn(4), dt)
 		case 5: // A learns about B
 			if r.Bool() {
 				if err := e.path.EndpointA.UpdateClient(); err != nil {
@@ -271,23 +363,7 @@ func history(r *Rng, steps int, emit func(M), report func(Violation)) {
 			if H < 2 {
 				continue
 			}
-			ts, okc := consTs(e.path.EndpointA, rev, H)
-			err := e.timeoutV1(k, H)
-			in := M{"f": "world.timeoutV1", "trev": U(k.p.TimeoutHeight.RevisionNumber), "th": U(k.p.TimeoutHeight.RevisionHeight), "tts": U(k.p.TimeoutTimestamp),
-				"rev": U(rev), "H": U(H), "consTs": U(ts), "cons": okc, "recvAt": U(k.recvAt)}
-			emit(lib_case(in, M{"accept": err == nil}))
-			if err == nil {
-				k.done = true
-				if k.recvAt != 0 || hasReceiptV1(e, k) {
-					viol("v1 packet both received on B and timed out on A", M{"seq": U(k.p.Sequence), "recvAt": U(k.recvAt), "proofHeight": U(H)})
-				}
-				// never early: B really produced block H with height/time at or past the timeout
-				hdrTime := ts
-				reached := (!k.p.TimeoutHeight.IsZero() && clienttypes.NewHeight(rev, H).GTE(k.p.TimeoutHeight)) || (k.p.TimeoutTimestamp != 0 && hdrTime >= k.p.TimeoutTimestamp)
-				if !reached || H > e.bHeight() {
-					viol("v1 timeout accepted before the destination reached the timeout", M{"seq": U(k.p.Sequence), "proofHeight": U(H), "consTs": U(ts)})
-				}
-			}
+			tryTimeoutV1(k, H)
 		case 9: // timeout attempt v2
 			if len(v2s) == 0 {
 				continue
@@ -303,18 +379,7 @@ func history(r *Rng, steps int, emit func(M), report func(Violation)) {
 			if H < 2 {
 				continue
 			}
-			ts, okc := consTs(e.pathV2.EndpointA, rev, H)
-			err := e.timeoutV2(k, H)
-			emit(lib_case(M{"f": "world.timeoutV2", "T": U(k.p.TimeoutTimestamp), "H": U(H), "consTs": U(ts), "cons": okc, "recvAt": U(k.recvAt)}, M{"accept": err == nil}))
-			if err == nil {
-				k.done = true
-				if k.recvAt != 0 || hasReceiptV2(e, k) {
-					viol("v2 packet both received on B and timed out on A", M{"seq": U(k.p.Sequence), "recvAt": U(k.recvAt), "proofHeight": U(H)})
-				}
-				if ts/1_000_000_000 < k.p.TimeoutTimestamp {
-					viol("v2 timeout accepted before the destination time reached the timeout", M{"seq": U(k.p.Sequence), "consTs": U(ts)})
-				}
-			}
+			tryTimeoutV2(k, H)
 		}
 	}
 }
